@@ -57,6 +57,12 @@ def cases(tier, seed):
                 for ds in (None, b'INITIAL-DATASET'):
                     for maxlen in ((16384, 40) if d < 3 else (16384,)):
                         yield {'cls': name, 'ds': ds, 'ops': list(seq), 'maxlen': maxlen}
+    # the provider thread consumes what Association.send queued only later: the message goes out as it was when it was sent,
+    # whatever the sender does to the object in the meantime
+    for name in names:
+        for ds in (None, b'INITIAL-DATASET'):
+            for op in OPS[:-1]:
+                yield {'cls': name, 'ds': ds, 'ops': [op], 'defer': True, 'maxlen': 40 if ds else 16384}
     # a message object built around an existing command set (optional constructor argument: relayed / copied command sets),
     # whose data-set flag may say either, then given its data set explicitly before each send
     dsops = ['dataset_none', 'dataset_empty', 'dataset_longer', 'dataset_shorter']
@@ -86,6 +92,41 @@ def run_case(case):
     for kwd in case.get('extra', ()):
         setattr(msg.command_set, kwd, {'ErrorComment': 'odd', 'OffendingElement': [0x00100010], 'ErrorID': 7}[kwd])
     viol = []
+    if case.get('defer'):
+        with stubs.patched_dul():
+            a1 = asceprovider.Association(stubs.FakeAE(), None, case.get('maxlen', 16384))
+            a2 = asceprovider.Association(stubs.FakeAE(), None, case.get('maxlen', 16384))
+        a1.send(msggen.make(name, data_set=case['ds'], **kw), 1)
+        ref = b''.join(p.encode() for p in a1.dul.sent[-1])
+        kept = []
+        a2.dul.send = kept.append            # queue only, like the real provider
+        a2.send(msg, 1)
+        op = case['ops'][0]
+        if op == 'status' and hasattr(type(msg), 'status') and 'Status' in msg.command_set:
+            msg.status = 0xA700
+        elif op == 'dataset_longer':
+            msg.data_set = b'LONGER-DATA-SET-' * 3
+        elif op == 'dataset_shorter':
+            msg.data_set = b'sh'
+        elif op == 'dataset_empty':
+            msg.data_set = b''
+        elif op == 'dataset_none':
+            msg.data_set = None
+        elif op == 'extra_element':
+            msg.command_set.ErrorComment = 'verif comment'
+        elif op == 'counters' and 'NumberOfRemainingSuboperations' in msg.command_set:
+            msg.num_of_remaining_sub_ops = 1
+            msg.num_of_completed_sub_ops = 9
+        elif op == 'uid_longer' and msg.sop_class_uid is not None:
+            msg.sop_class_uid = '1.2.840.10008.5.1.4.1.2.2.100'
+        try:
+            got = b''.join(p.encode() for p in kept[0])
+        except Exception as exc:
+            got = repr(exc)
+        if got != ref:
+            viol.append(('c08:%s:changed-after-send' % name, 'message sent, then %s applied to the object before the provider consumed it: %s on the wire, '
+                         'as sent it was %s' % (op, got.hex()[:80] if isinstance(got, bytes) else got, ref.hex()[:80])))
+        return {'viol': viol, 'case': case if viol else None, 'key': (name, 'defer', op, bool(case['ds']))}
     if case.get('from_cs'):
         import copy
         msg = type(msg)(copy.deepcopy(msg.command_set))
